@@ -667,7 +667,7 @@ fn emit<W: Write>(w: &mut W, prop: &str, kind: &str, lines: &[String], replies: 
 // generators
 
 const EDITS: &[&str] = &["15 PRINT \"E\"", "25 A=A+1", "35 REM", "15", "25", "DELETE 15", "DELETE 15-25", "DELETE 1-2", "9", "65000"];
-const DIRECTS: &[&str] = &["PRINT A;B;X", "A=7:B$=\"q\"", "DIM ZZ(3)", "DEFINT A-C", "DEFSTR S", "X=1/0", "PRINT FNA(1)", "READ A", "RESTORE", "PRINT Q(11)", "FOR I=1 TO 2", "GOSUB 99", "CLEAR", "STOP", "END", "DATA 2,3", "IF 1 THEN DATA 7,8", "READ X:PRINT X", "READ X,Y,Z", "DEF FNQ(X)=X", "RESTORE 30"];
+const DIRECTS: &[&str] = &["PRINT A;B;X", "A=7:B$=\"q\"", "DIM ZZ(3)", "DEFINT A-C", "DEFSTR S", "X=1/0", "PRINT FNA(1)", "READ A", "RESTORE", "PRINT Q(11)", "FOR I=1 TO 2", "GOSUB 99", "CLEAR", "STOP", "END", "DATA 2,3", "IF 1 THEN DATA 7,8", "READ X:PRINT X", "READ X,Y,Z", "DEF FNQ(X)=X", "RESTORE 30", "PRINT )", "PRINT 1+", "IF 1 THEN", "NEXT", "GOTO 64999", "A$=1"];
 
 /// C04: what runs is the program LIST shows.
 pub fn gen_c04<W: Write>(w: &mut W, tier: &str, seed: u64) {
@@ -810,6 +810,10 @@ pub fn gen_c12<W: Write>(w: &mut W, tier: &str, seed: u64) {
         match i % 4 {
             0 => {
                 let mut v = h.clone();
+                if rng.chance(1, 2) {
+                    // an edit after the direct statements, refused ones included, then RUN
+                    v.push("2000 PRINT 5".into());
+                }
                 v.push("RUN".into());
                 emit(w, "C12", "fresh", &v, &[]);
             }
